@@ -325,11 +325,24 @@ def run_shard(prop, tier, dseed, shard, n_examples, budget_s):
                 state["herr"] = traceback.format_exc()
                 raise
 
-        @initialize(entries=st.lists(st.tuples(axes_sets, spellings), max_size=2, unique_by=lambda t: tuple(t[0])), data=st.data())
+        @initialize(entries=st.lists(st.tuples(axes_sets, spellings), max_size=3), data=st.data())
         def construct(self, entries, data):
+            # several entries may name the same axis set as long as their dictionary keys differ (('X','Y') and ('Y','X'),
+            # 'X' and ('X',)): they accumulate like successive registrations; each entry fills other positions
             metrics = []
+            keys, taken = set(), set()
             for axes, sp in entries:
-                metrics.append([axes, sp if sp != "str" or len(axes) == 1 else "tuple", data.draw(batch(axes))])
+                sp = sp if sp != "str" or len(axes) == 1 else "tuple"
+                key = spell_key(axes, sp)
+                key = key if isinstance(key, str) else tuple(key)
+                if key in keys:
+                    continue
+                names = [nm for nm in data.draw(batch(axes)) if slot_of(nm) not in taken]
+                if not names:
+                    continue
+                keys.add(key)
+                taken.update(slot_of(nm) for nm in names)
+                metrics.append([axes, sp, names])
             self._do({"op": "construct", "metrics": metrics}, lambda: self.h.construct(metrics))
 
         @precondition(lambda self: self.nreg < 4)
